@@ -26,7 +26,26 @@ type BytePred struct {
 	Strings map[types.Object][]byte
 	// Results holds the values of the last multi-value return statement that was interpreted.
 	Results []int64
-	tables  map[types.Object]*Table
+	// Fields binds struct fields (code.NumBitSize) to concrete values: a selector that names a bound field folds to it.
+	Fields map[types.Object]int64
+	// Globals binds package-level variables that are set once at start-up (the detected endianness).
+	Globals map[types.Object]int64
+	// ResultBytes holds the bytes of the last `return append(<bound slice>, …)` that was interpreted.
+	ResultBytes []byte
+	tables      map[types.Object]*Table
+	arrays      map[types.Object]*bpArray // local arrays (`var b [22]byte`), zeroed at declaration
+	views       map[types.Object]bpView   // `u := (*[11]uint16)(unsafe.Pointer(&b))`: another element width over the same bytes
+	tabPtrs     map[types.Object]types.Object // a local that points to a package-level table (`lookup := intLookup[k]`)
+}
+
+// bpArray is the memory of a local array, byte by byte.
+type bpArray struct{ mem []byte }
+
+// bpView reads and writes a local array's memory with elements of another width (little endian, the layout the
+// analysed code selects on such a host through its own endianness switch).
+type bpView struct {
+	base  types.Object
+	width int
 }
 
 type bpVal struct {
@@ -75,6 +94,23 @@ func truncate(t types.Type, v int64) int64 {
 	return v
 }
 
+// isUnsigned64 reports whether values of t are unsigned and 64 bits wide (uint64, uint, uintptr on the analysed
+// 64-bit configuration): comparison, division and right shift then work on the bit pattern as an unsigned number.
+func isUnsigned64(t types.Type) bool {
+	if t == nil {
+		return false
+	}
+	b, ok := t.Underlying().(*types.Basic)
+	if !ok {
+		return false
+	}
+	switch b.Kind() {
+	case types.Uint64, types.Uint, types.Uintptr:
+		return true
+	}
+	return false
+}
+
 func (bp *BytePred) eval(info *types.Info, e ast.Expr, env bpEnv, depth int) (bpVal, bool) {
 	bp.Steps++
 	if bp.Steps > bpMaxSteps || depth > 40 {
@@ -108,6 +144,16 @@ func (bp *BytePred) eval(info *types.Info, e ast.Expr, env bpEnv, depth int) (bp
 		if v, ok := ConstInt(info, x); ok {
 			return bpVal{I: v}, true
 		}
+		if v, ok := bp.Globals[obj]; ok {
+			return bpVal{I: v}, true
+		}
+		return bpVal{}, false
+	case *ast.SelectorExpr:
+		if f, ok := info.Uses[x.Sel].(*types.Var); ok && f.IsField() {
+			if v, bound := bp.Fields[f]; bound {
+				return bpVal{I: v}, true
+			}
+		}
 		return bpVal{}, false
 	case *ast.UnaryExpr:
 		v, ok := bp.eval(info, x.X, env, depth+1)
@@ -118,7 +164,7 @@ func (bp *BytePred) eval(info *types.Info, e ast.Expr, env bpEnv, depth int) (bp
 		case token.NOT:
 			return bpVal{B: !v.B, Is: true}, v.Is
 		case token.SUB:
-			return bpVal{I: -v.I}, !v.Is
+			return bpVal{I: truncate(info.Types[e].Type, -v.I)}, !v.Is
 		case token.XOR:
 			t := info.Types[e].Type
 			return bpVal{I: truncate(t, ^v.I)}, !v.Is
@@ -176,14 +222,49 @@ func (bp *BytePred) eval(info *types.Info, e ast.Expr, env bpEnv, depth int) (bp
 				return bpVal{B: l.B != r.B, Is: true}, true
 			}
 			return bpVal{B: l.I != r.I, Is: true}, true
-		case token.LSS:
-			return bpVal{B: l.I < r.I, Is: true}, true
-		case token.LEQ:
-			return bpVal{B: l.I <= r.I, Is: true}, true
-		case token.GTR:
-			return bpVal{B: l.I > r.I, Is: true}, true
-		case token.GEQ:
+		case token.LSS, token.LEQ, token.GTR, token.GEQ:
+			if isUnsigned64(info.TypeOf(x.X)) || isUnsigned64(info.TypeOf(x.Y)) {
+				a, b := uint64(l.I), uint64(r.I)
+				switch x.Op {
+				case token.LSS:
+					return bpVal{B: a < b, Is: true}, true
+				case token.LEQ:
+					return bpVal{B: a <= b, Is: true}, true
+				case token.GTR:
+					return bpVal{B: a > b, Is: true}, true
+				}
+				return bpVal{B: a >= b, Is: true}, true
+			}
+			switch x.Op {
+			case token.LSS:
+				return bpVal{B: l.I < r.I, Is: true}, true
+			case token.LEQ:
+				return bpVal{B: l.I <= r.I, Is: true}, true
+			case token.GTR:
+				return bpVal{B: l.I > r.I, Is: true}, true
+			}
 			return bpVal{B: l.I >= r.I, Is: true}, true
+		case token.QUO, token.REM:
+			if r.I == 0 {
+				return bpVal{}, false
+			}
+			if isUnsigned64(t) {
+				if x.Op == token.QUO {
+					return bpVal{I: int64(uint64(l.I) / uint64(r.I))}, true
+				}
+				return bpVal{I: int64(uint64(l.I) % uint64(r.I))}, true
+			}
+			if bt, isBasic := t.Underlying().(*types.Basic); isBasic && bt.Info()&types.IsUnsigned != 0 {
+				// narrower unsigned types hold non-negative values here
+				if x.Op == token.QUO {
+					return bpVal{I: truncate(t, int64(uint64(l.I)/uint64(r.I)))}, true
+				}
+				return bpVal{I: truncate(t, int64(uint64(l.I)%uint64(r.I)))}, true
+			}
+			if x.Op == token.QUO {
+				return bpVal{I: truncate(t, l.I/r.I)}, true
+			}
+			return bpVal{I: truncate(t, l.I%r.I)}, true
 		case token.ADD:
 			return bpVal{I: truncate(t, l.I+r.I)}, true
 		case token.SUB:
@@ -199,12 +280,24 @@ func (bp *BytePred) eval(info *types.Info, e ast.Expr, env bpEnv, depth int) (bp
 		case token.AND_NOT:
 			return bpVal{I: truncate(t, l.I&^r.I)}, true
 		case token.SHL:
-			if r.I < 0 || r.I > 62 {
+			if r.I < 0 {
 				return bpVal{}, false
 			}
-			return bpVal{I: truncate(t, l.I<<uint(r.I))}, true
+			if r.I >= 64 {
+				return bpVal{I: 0}, true
+			}
+			return bpVal{I: truncate(t, int64(uint64(l.I)<<uint(r.I)))}, true
 		case token.SHR:
-			if r.I < 0 || r.I > 62 {
+			if r.I < 0 {
+				return bpVal{}, false
+			}
+			if isUnsigned64(t) || isUnsigned64(info.TypeOf(x.X)) {
+				if r.I >= 64 {
+					return bpVal{I: 0}, true
+				}
+				return bpVal{I: int64(uint64(l.I) >> uint(r.I))}, true
+			}
+			if r.I > 62 {
 				return bpVal{}, false
 			}
 			return bpVal{I: truncate(t, l.I>>uint(r.I))}, true
@@ -219,6 +312,12 @@ func (bp *BytePred) eval(info *types.Info, e ast.Expr, env bpEnv, depth int) (bp
 		iv, ok := bp.eval(info, x.Index, env, depth+1)
 		if !ok || iv.Is {
 			return bpVal{}, false
+		}
+		if v, isLocal, ok := bp.loadLocal(obj, iv.I); isLocal {
+			return bpVal{I: v}, ok
+		}
+		if tab, isPtr := bp.tabPtrs[obj]; isPtr {
+			obj = tab
 		}
 		if bs, bound := bp.Strings[obj]; bound {
 			if iv.I < 0 || iv.I >= int64(len(bs)) {
@@ -438,6 +537,10 @@ func (bp *BytePred) exec(info *types.Info, list []ast.Stmt, env bpEnv, depth int
 				}
 				return first, true, true
 			}
+			if out, isBytes := bp.appendedBytes(info, s.Results[0], env, depth); isBytes {
+				bp.ResultBytes = out
+				return bpVal{}, true, true
+			}
 			v, ok := bp.eval(info, s.Results[0], env, depth+1)
 			if ok && !v.IsS {
 				// the single result is recorded like a result list of one
@@ -545,6 +648,14 @@ func (bp *BytePred) exec(info *types.Info, list []ast.Stmt, env bpEnv, depth int
 				tobj := ObjOf(info, ix.X)
 				iv, ok1 := bp.eval(info, ix.Index, env, depth+1)
 				rv, ok2 := bp.eval(info, s.Rhs[0], env, depth+1)
+				if ok1 && ok2 && !iv.Is && !rv.Is {
+					if isLocal, ok := bp.storeLocal(tobj, iv.I, rv.I); isLocal {
+						if !ok {
+							return bpVal{}, false, false
+						}
+						continue
+					}
+				}
 				if tobj == nil || tobj.Pkg() == nil || tobj.Parent() != tobj.Pkg().Scope() || !ok1 || !ok2 || iv.Is || rv.Is {
 					return bpVal{}, false, false
 				}
@@ -563,6 +674,24 @@ func (bp *BytePred) exec(info *types.Info, list []ast.Stmt, env bpEnv, depth int
 			obj := ObjOf(info, s.Lhs[0])
 			if obj == nil {
 				return bpVal{}, false, false
+			}
+			if s.Tok == token.DEFINE || s.Tok == token.ASSIGN {
+				// u := (*[N]T)(unsafe.Pointer(&b)): a view of a local array with another element width
+				if base, width, isView := bp.viewOf(info, s.Rhs[0]); isView {
+					if bp.views == nil {
+						bp.views = map[types.Object]bpView{}
+					}
+					bp.views[obj] = bpView{base, width}
+					continue
+				}
+				// lookup := tables[k] where tables is a package-level array of pointers to tables
+				if tab, isTab := bp.tablePointer(info, s.Rhs[0], env, depth); isTab {
+					if bp.tabPtrs == nil {
+						bp.tabPtrs = map[types.Object]types.Object{}
+					}
+					bp.tabPtrs[obj] = tab
+					continue
+				}
 			}
 			if se, isSlice := Unparen(s.Rhs[0]).(*ast.SliceExpr); isSlice && (s.Tok == token.ASSIGN || s.Tok == token.DEFINE) {
 				if bs, bound := bp.Strings[ObjOf(info, se.X)]; bound && se.Max == nil {
@@ -617,6 +746,37 @@ func (bp *BytePred) exec(info *types.Info, list []ast.Stmt, env bpEnv, depth int
 				v = l.I - r.I
 			case token.AND_NOT_ASSIGN:
 				v = l.I &^ r.I
+			case token.MUL_ASSIGN:
+				v = l.I * r.I
+			case token.QUO_ASSIGN, token.REM_ASSIGN:
+				if r.I == 0 {
+					return bpVal{}, false, false
+				}
+				if bt, isBasic := obj.Type().Underlying().(*types.Basic); isBasic && bt.Info()&types.IsUnsigned != 0 {
+					if s.Tok == token.QUO_ASSIGN {
+						v = int64(uint64(l.I) / uint64(r.I))
+					} else {
+						v = int64(uint64(l.I) % uint64(r.I))
+					}
+				} else if s.Tok == token.QUO_ASSIGN {
+					v = l.I / r.I
+				} else {
+					v = l.I % r.I
+				}
+			case token.SHL_ASSIGN:
+				if r.I < 0 || r.I >= 64 {
+					return bpVal{}, false, false
+				}
+				v = int64(uint64(l.I) << uint(r.I))
+			case token.SHR_ASSIGN:
+				if r.I < 0 || r.I >= 64 {
+					return bpVal{}, false, false
+				}
+				if isUnsigned64(obj.Type()) {
+					v = int64(uint64(l.I) >> uint(r.I))
+				} else {
+					v = l.I >> uint(r.I)
+				}
 			default:
 				return bpVal{}, false, false
 			}
@@ -737,6 +897,14 @@ func (bp *BytePred) exec(info *types.Info, list []ast.Stmt, env bpEnv, depth int
 					}
 					for _, nm := range vs.Names {
 						if o := info.Defs[nm]; o != nil {
+							if at, isArr := o.Type().Underlying().(*types.Array); isArr {
+								if w := basicWidth(at.Elem()); w > 0 {
+									if bp.arrays == nil {
+										bp.arrays = map[types.Object]*bpArray{}
+									}
+									bp.arrays[o] = &bpArray{mem: make([]byte, int(at.Len())*w)}
+								}
+							}
 							if b, isBasic := o.Type().Underlying().(*types.Basic); isBasic {
 								if b.Info()&types.IsInteger != 0 {
 									env[o] = bpVal{I: 0}
@@ -823,4 +991,226 @@ func (bp *BytePred) EvalInt(info *types.Info, e ast.Expr, env Env) (int64, bool)
 		return 0, false
 	}
 	return v.I, true
+}
+
+func basicWidth(t types.Type) int {
+	b, ok := t.Underlying().(*types.Basic)
+	if !ok {
+		return 0
+	}
+	switch b.Kind() {
+	case types.Uint8, types.Int8:
+		return 1
+	case types.Uint16, types.Int16:
+		return 2
+	case types.Uint32, types.Int32:
+		return 4
+	case types.Uint64, types.Int64:
+		return 8
+	}
+	return 0
+}
+
+// loadLocal reads element i of a local array or of a view of one.
+func (bp *BytePred) loadLocal(obj types.Object, i int64) (v int64, isLocal, ok bool) {
+	mem, width := bp.localMem(obj)
+	if mem == nil {
+		return 0, false, false
+	}
+	off := int(i) * width
+	if i < 0 || off+width > len(mem.mem) {
+		return 0, true, false
+	}
+	var u uint64
+	for k := width - 1; k >= 0; k-- {
+		u = u<<8 | uint64(mem.mem[off+k])
+	}
+	return int64(u), true, true
+}
+
+// storeLocal writes element i of a local array or of a view of one.
+func (bp *BytePred) storeLocal(obj types.Object, i, v int64) (isLocal, ok bool) {
+	mem, width := bp.localMem(obj)
+	if mem == nil {
+		return false, false
+	}
+	off := int(i) * width
+	if i < 0 || off+width > len(mem.mem) {
+		return true, false
+	}
+	for k := 0; k < width; k++ {
+		mem.mem[off+k] = byte(uint64(v) >> (8 * uint(k)))
+	}
+	return true, true
+}
+
+func (bp *BytePred) localMem(obj types.Object) (*bpArray, int) {
+	if obj == nil {
+		return nil, 0
+	}
+	if a, ok := bp.arrays[obj]; ok {
+		if at, isArr := obj.Type().Underlying().(*types.Array); isArr {
+			return a, basicWidth(at.Elem())
+		}
+	}
+	if v, ok := bp.views[obj]; ok {
+		return bp.arrays[v.base], v.width
+	}
+	return nil, 0
+}
+
+// viewOf matches (*[N]T)(unsafe.Pointer(&b)) with b a local array.
+func (bp *BytePred) viewOf(info *types.Info, e ast.Expr) (types.Object, int, bool) {
+	conv, ok := Unparen(e).(*ast.CallExpr)
+	if !ok || len(conv.Args) != 1 {
+		return nil, 0, false
+	}
+	tv, isType := info.Types[conv.Fun]
+	if !isType || !tv.IsType() {
+		return nil, 0, false
+	}
+	pt, isPtr := tv.Type.Underlying().(*types.Pointer)
+	if !isPtr {
+		return nil, 0, false
+	}
+	at, isArr := pt.Elem().Underlying().(*types.Array)
+	if !isArr || basicWidth(at.Elem()) == 0 {
+		return nil, 0, false
+	}
+	inner, ok := Unparen(conv.Args[0]).(*ast.CallExpr)
+	if !ok || len(inner.Args) != 1 {
+		return nil, 0, false
+	}
+	if t := info.TypeOf(inner); t == nil || t.String() != "unsafe.Pointer" {
+		return nil, 0, false
+	}
+	addr, ok := Unparen(inner.Args[0]).(*ast.UnaryExpr)
+	if !ok || addr.Op != token.AND {
+		return nil, 0, false
+	}
+	base := ObjOf(info, addr.X)
+	if _, isLocalArr := bp.arrays[base]; !isLocalArr {
+		return nil, 0, false
+	}
+	return base, basicWidth(at.Elem()), true
+}
+
+// tablePointer matches tables[k] where tables is a package-level array whose elements are written &tableName.
+func (bp *BytePred) tablePointer(info *types.Info, e ast.Expr, env bpEnv, depth int) (types.Object, bool) {
+	ix, ok := Unparen(e).(*ast.IndexExpr)
+	if !ok {
+		return nil, false
+	}
+	obj := ObjOf(info, ix.X)
+	if obj == nil || obj.Pkg() == nil || obj.Parent() != obj.Pkg().Scope() {
+		return nil, false
+	}
+	at, isArr := obj.Type().Underlying().(*types.Array)
+	if !isArr {
+		return nil, false
+	}
+	if _, isPtr := at.Elem().Underlying().(*types.Pointer); !isPtr {
+		return nil, false
+	}
+	iv, ok := bp.eval(info, ix.Index, env, depth+1)
+	if !ok || iv.Is || iv.I < 0 || iv.I >= at.Len() {
+		return nil, false
+	}
+	// the declaration's composite literal
+	for _, pk := range bp.P.All {
+		if pk.Types != obj.Pkg() {
+			continue
+		}
+		for _, f := range pk.Syntax {
+			for _, d := range f.Decls {
+				gd, isGen := d.(*ast.GenDecl)
+				if !isGen {
+					continue
+				}
+				for _, sp := range gd.Specs {
+					vs, isVS := sp.(*ast.ValueSpec)
+					if !isVS {
+						continue
+					}
+					for k, nm := range vs.Names {
+						if pk.TypesInfo.Defs[nm] != obj || k >= len(vs.Values) {
+							continue
+						}
+						cl, isLit := Unparen(vs.Values[k]).(*ast.CompositeLit)
+						if !isLit || int(iv.I) >= len(cl.Elts) {
+							return nil, false
+						}
+						u, isAddr := Unparen(cl.Elts[iv.I]).(*ast.UnaryExpr)
+						if !isAddr || u.Op != token.AND {
+							return nil, false
+						}
+						tab := ObjOf(pk.TypesInfo, u.X)
+						return tab, tab != nil
+					}
+				}
+			}
+		}
+	}
+	return nil, false
+}
+
+// appendedBytes folds append(dst, …) where dst is a bound byte string: the arguments are single bytes, or one
+// spread operand that is a bound string or a re-slice of a local byte array.
+func (bp *BytePred) appendedBytes(info *types.Info, e ast.Expr, env bpEnv, depth int) ([]byte, bool) {
+	call, ok := Unparen(e).(*ast.CallExpr)
+	if !ok || !IsBuiltin(info, call, "append") || len(call.Args) < 1 {
+		return nil, false
+	}
+	dst, bound := bp.boundBytes(info, call.Args[0], env, depth)
+	if !bound {
+		if inner, ok2 := bp.appendedBytes(info, call.Args[0], env, depth); ok2 {
+			dst, bound = inner, true
+		}
+	}
+	if !bound {
+		return nil, false
+	}
+	out := append([]byte{}, dst...)
+	if call.Ellipsis.IsValid() && len(call.Args) == 2 {
+		if bs, isBound := bp.boundBytes(info, call.Args[1], env, depth); isBound {
+			return append(out, bs...), true
+		}
+		if tv, has := info.Types[call.Args[1]]; has && tv.Value != nil && tv.Value.Kind() == constant.String {
+			return append(out, constant.StringVal(tv.Value)...), true
+		}
+		if se, isSlice := Unparen(call.Args[1]).(*ast.SliceExpr); isSlice && se.Max == nil {
+			arr, isLocal := bp.arrays[ObjOf(info, se.X)]
+			if !isLocal {
+				return nil, false
+			}
+			lo, hi := int64(0), int64(len(arr.mem))
+			if se.Low != nil {
+				v, ok := bp.eval(info, se.Low, env, depth+1)
+				if !ok || v.Is {
+					return nil, false
+				}
+				lo = v.I
+			}
+			if se.High != nil {
+				v, ok := bp.eval(info, se.High, env, depth+1)
+				if !ok || v.Is {
+					return nil, false
+				}
+				hi = v.I
+			}
+			if lo < 0 || hi > int64(len(arr.mem)) || lo > hi {
+				return nil, false
+			}
+			return append(out, arr.mem[lo:hi]...), true
+		}
+		return nil, false
+	}
+	for _, a := range call.Args[1:] {
+		v, ok := bp.eval(info, a, env, depth+1)
+		if !ok || v.Is || v.IsS {
+			return nil, false
+		}
+		out = append(out, byte(v.I))
+	}
+	return out, true
 }
